@@ -2,7 +2,7 @@
    The eye lemmas are about Model.Create.eye, which is assembled from the generated arithmetic
    Gen/S_create.v:s_eye_arith. *)
 From Coq Require Import ZArith List Bool Lia ZifyBool.
-From Verif Require Import Py PyExt PyCreate S_create Shape COO NpCreate Create.
+From Verif Require Import Py PyExt PyCreate S_create Shape COO NpCreate Create ShapeNth.
 Import ListNotations.
 Open Scope Z_scope.
 
@@ -144,6 +144,102 @@ Section CreateP.
         congruence.
   Qed.
 End CreateP.
+
+(* ------------------------------------------------------------------ asarray of a dense array *)
+Section AsarrayP.
+  Variable V : Type.
+  Variable zero : V.
+  Variable veqb : V -> V -> bool.
+  Hypothesis veqb_sound : forall a b, veqb a b = true -> a = b.
+
+  Lemma lookup_notin (es : list (idx * V)) k : ~ In k (map fst es) -> lookup es k = None.
+  Proof.
+    induction es as [|[k0 v0] r IH]; simpl; [reflexivity|]. intros Hn.
+    rewrite IH by tauto. destruct (idx_eqb k0 k) eqn:E; [|reflexivity].
+    apply idx_eqb_eq in E. tauto.
+  Qed.
+
+  Lemma lookup_unique (es : list (idx * V)) k v :
+    NoDup (map fst es) -> In (k, v) es -> lookup es k = Some v.
+  Proof.
+    induction es as [|[k0 v0] r IH]; simpl; [tauto|]. intros Hnd Hin.
+    inversion Hnd as [|? ? Hk0 Hnd']; subst. destruct Hin as [He|Hin].
+    - inversion He; subst. rewrite lookup_notin by assumption. rewrite idx_eqb_refl. reflexivity.
+    - rewrite (IH Hnd' Hin). reflexivity.
+  Qed.
+
+  Lemma map_fst_combine' {A B} (a : list A) (b : list B) : length a = length b -> map fst (combine a b) = a.
+  Proof.
+    revert b; induction a as [|x a IH]; intros [|y b]; simpl; try discriminate; [reflexivity|].
+    intros H'. f_equal. apply IH. congruence.
+  Qed.
+
+  Lemma combine_fst_snd {A B} (l : list (A * B)) : combine (map fst l) (map snd l) = l.
+  Proof. induction l as [|[a b] l IH]; simpl; [reflexivity|]. rewrite IH. reflexivity. Qed.
+
+  Lemma NoDup_map_fst_filter {A B} (p : A * B -> bool) (l : list (A * B)) :
+    NoDup (map fst l) -> NoDup (map fst (filter p l)).
+  Proof.
+    induction l as [|x l IH]; simpl; [tauto|]. intros Hnd. inversion Hnd as [|? ? Hx Hnd']; subst.
+    destruct (p x); simpl; [|apply IH; assumption].
+    constructor; [|apply IH; assumption]. intros Hin. apply Hx.
+    apply in_map_iff in Hin. destruct Hin as [y [Ey Hy]]. apply filter_In in Hy.
+    apply in_map_iff. exists y. tauto.
+  Qed.
+
+  (* the value of a dense array at an index tuple: row-major position ravel sh ix of the flat contents *)
+  Definition dense_at (d : dense V) (ix : idx) : V := nth (Z.to_nat (ravel (d_shape d) ix)) (d_flat d) zero.
+
+  (* asarray(ndarray) = COO.from_numpy(x) denotes x (also for the 0-d case, where the value becomes the fill) *)
+  Theorem asarray_den_proof (d : dense V) (ix : idx) :
+    shape_ok (d_shape d) -> dense_wf d -> in_range (d_shape d) ix ->
+    den (asarray_dense zero veqb d) ix = dense_at d ix /\
+    c_shape (asarray_dense zero veqb d) = d_shape d.
+  Proof.
+    intros Hok Hwf Hin. destruct d as [sh fl]. unfold dense_wf, dense_at in *. cbn [d_shape d_flat] in *.
+    unfold asarray_dense. cbn [d_shape d_flat].
+    destruct sh as [|d0 sh'].
+    - (* 0-d *)
+      destruct ix; [|contradiction]. destruct fl as [|v fl']; [discriminate|].
+      split; reflexivity.
+    - set (sh := d0 :: sh') in *. destruct fl as [|v0 fl'] eqn:Efl.
+      + (* empty contents: size 0, no index in range *)
+        exfalso. pose proof (in_range_size_pos _ _ Hin). rewrite all_indices_length in Hwf by assumption.
+        cbn [length] in Hwf. lia.
+      + rewrite <- Efl in *. clear Efl v0 fl'.
+        split; [|reflexivity].
+        unfold from_dense, den, entries. cbn [d_shape d_flat c_coords c_data c_fill].
+        rewrite combine_fst_snd.
+        set (l := combine (all_indices sh) fl).
+        assert (Hkeys : map fst l = all_indices sh) by (apply map_fst_combine'; congruence).
+        assert (Hnd : NoDup (map fst l)) by (rewrite Hkeys; apply all_indices_NoDup; assumption).
+        pose proof (ravel_bounds _ _ Hin) as Hb.
+        set (p := Z.to_nat (ravel sh ix)).
+        assert (Hp : (p < length (all_indices sh))%nat) by (rewrite all_indices_length by assumption; lia).
+        set (v := nth p fl zero).
+        assert (Hinl : In (ix, v) l).
+        { assert (E : nth p l (ix, zero) = (ix, v)).
+          { unfold l. rewrite combine_nth by congruence. f_equal. apply all_indices_nth; assumption. }
+          rewrite <- E. apply nth_In. unfold l. rewrite combine_length, <- Hwf. lia. }
+        destruct (veqb v zero) eqn:Ev.
+        * (* not stored: the fill is the value *)
+          rewrite lookup_notin; [symmetry; apply veqb_sound; assumption|].
+          intros Hc. apply in_map_iff in Hc. destruct Hc as [[k w] [Ek Hkw]]. cbn in Ek. subst k.
+          apply filter_In in Hkw. destruct Hkw as [Hkw Hw]. cbn in Hw.
+          pose proof (lookup_unique _ _ _ Hnd Hkw) as L1. pose proof (lookup_unique _ _ _ Hnd Hinl) as L2.
+          assert (w = v) by congruence. subst w. rewrite Ev in Hw. discriminate.
+        * rewrite (lookup_unique _ ix v); [reflexivity| |].
+          -- apply NoDup_map_fst_filter. assumption.
+          -- apply filter_In. split; [assumption|]. cbn. rewrite Ev. reflexivity.
+  Qed.
+End AsarrayP.
+
+Example asarray_den_nonvacuous :
+  let d := mkDense [2; 3] [0; 5; 0; 7; 0; 0] in
+  asarray_dense 0 Z.eqb d = mkCOO [2; 3] [[0; 1]; [1; 0]] [5; 7] 0 /\
+  den (asarray_dense 0 Z.eqb d) [1; 0] = 7 /\ dense_at Z 0 d [1; 0] = 7 /\
+  asarray_dense 0 Z.eqb (mkDense [] [4]) = mkCOO [] [] [] 4.
+Proof. repeat split. Qed.
 
 (* non-vacuity: a non-trivial instance (3 x 4, first superdiagonal) *)
 Example eye_den_nonvacuous :
